@@ -27,7 +27,11 @@ RULE = (
     "drawn seeds; the input form (1-D, (N,1), density matrix), the dim-argument form (list, numpy array, scalar, "
     "omitted) and k are drawn. Mixed states are sums of 1..3 product states or full-rank / low-rank Wishart matrices; "
     "operators are built from Hilbert-Schmidt-orthonormal local operator bases so that their operator-Schmidt "
-    "coefficients are known. A case is non-trivial when the local dims are unequal, the Schmidt rank (or number of "
+    "coefficients are known. S(k)-norm inputs: Wishart PSD matrices and projections of drawn rank, b*I + c*|psi><psi| "
+    "(psi a Schmidt-constructed state), locally rotated Werner operators and PSD products (all three with a closed-form "
+    "S(k) norm), rank-one |a><b|, Hermitian indefinite and general complex matrices, with k, effort and a seed for "
+    "numpy's global RNG drawn; block-positivity inputs: PSD, partial transposes of NPT states (+eps*I), locally "
+    "rotated swap + eps*I, and A - (<v|A|v>+t)|v><v| with v of drawn Schmidt rank <= k. A case is non-trivial when the local dims are unequal, the Schmidt rank (or number of "
     "operator-Schmidt terms) is >= 2 and the coefficients are not all equal; for product tests when a non-product "
     "input has >= 3 parties or unequal dims; for S(k) norms / block positivity when k < min(d) and the operator is "
     "neither rank one nor a product (the bounds are not trivially the operator norm). distinct = distinct SHA-1 of "
@@ -674,18 +678,29 @@ def nt_entropy(case):
 # ------------------------------------------------------------------------------------------------------
 # 7. is_product on vectors (2 or 3 parties)
 # ------------------------------------------------------------------------------------------------------
+def _qetlab_stage(v, d2):
+    """One bipartite step of the product test on the same matrix layout the algorithm prescribes (amplitudes reshaped
+    column-major to d2[1] x d2[0]); returns (ratio of s1 to the threshold prod(d2)*spacing(s0), left factor)."""
+    M = np.asarray(v).reshape([int(d2[1]), int(d2[0])], order="F")
+    U, S, Vh = np.linalg.svd(M)
+    ratio = 0.0 if S.size < 2 else float(S[1] / (int(d2[0]) * int(d2[1]) * np.spacing(S[0])))
+    return ratio, Vh[0, :] * np.sqrt(S[0])
+
+
 def _product_ratio(v, d):
-    """How far inside toqito's own product threshold a Kronecker product of len(d) <= 3 factors is (independent numpy
-    SVDs, following the same recursion: cut (0 1 | 2) first, then the left factor (0 | 1)); <= 1 means 'inside'."""
+    """How far inside the product test's own fixed threshold a Kronecker product of len(d) <= 3 factors is (<= 1 means
+    'inside').  Independent numpy SVDs that follow the documented recursion (cut (0 1 | 2) first, then the left factor
+    (0 | 1)) in the prescribed matrix layout and, in addition, in the row-major layout; the maximum is returned."""
     d = [int(k) for k in d]
+    v = np.asarray(v).reshape(-1)
     if len(d) == 2:
-        return _spacing_ratio(np.asarray(v).reshape(d))
-    M = np.asarray(v).reshape(d[0] * d[1], d[2])
-    r1 = _spacing_ratio(M)
+        return max(_qetlab_stage(v, d)[0], _spacing_ratio(v.reshape(d)))
+    r1, left = _qetlab_stage(v, [d[0] * d[1], d[2]])
+    r2, _ = _qetlab_stage(left, [d[0], d[1]])
+    M = v.reshape(d[0] * d[1], d[2])
     U, S, _ = np.linalg.svd(M, full_matrices=False)
-    r2 = _spacing_ratio((U[:, 0] * np.sqrt(S[0])).reshape(d[0], d[1]))
-    r3 = _spacing_ratio(np.asarray(v).reshape(d[0], d[1] * d[2]))
-    return max(r1, r2, r3)
+    r3 = _spacing_ratio((U[:, 0] * np.sqrt(S[0])).reshape(d[0], d[1]))
+    return max(r1, r2, r3, _spacing_ratio(M), _spacing_ratio(v.reshape(d[0], d[1] * d[2])))
 
 
 def _spacing_ratio(M):
@@ -1008,6 +1023,15 @@ def _sk_matrix(case):
         B = gen.rand_density(int(g.integers(0, 2**62)), d[1], int(g.integers(1, d[1] + 1)))
         X = np.kron(A, B) * case["scale"]
         return X, float(np.linalg.norm(A, 2) * np.linalg.norm(B, 2)) * case["scale"]
+    if kind == "werner":
+        # (U(x)V) (I - a W)/(n(n-a)) (U(x)V)*: <xy|I - aW|xy> = 1 - a|<x|y>|^2, the eigenvalue 1+a belongs to the
+        # antisymmetric space (vectors of Schmidt rank 2), 1-a to the symmetric space (contains product vectors)
+        nn, a = d[0], case["a"]
+        L = _lu(d, case["wa"], case["wb"])
+        X = L @ (np.eye(n) - a * ref.perm_operator([nn, nn], [1, 0])) @ L.conj().T / (nn * (nn - a))
+        X = (X + X.conj().T) / 2
+        exact = (1 + abs(min(a, 0.0))) if k == 1 else (1 + abs(a))
+        return X * case["scale"], exact / (nn * (nn - a)) * case["scale"]
     if kind == "herm":
         m = gen.rand_matrix(seed, n, n, True)
         return (m + m.conj().T) / 2 * case["scale"], None
@@ -1020,15 +1044,20 @@ def _sk_case(sdp):
     def strat(draw):
         dims = [(2, 2), (2, 3), (3, 2), (3, 3), (2, 4), (4, 2), (3, 4), (4, 3)] + ([] if sdp else [(4, 4)])
         d = list(draw(st.sampled_from(dims)))
+        if sdp:
+            kind = draw(st.sampled_from(["psd", "psd", "proj", "iso", "iso", "werner", "product"]))
+        else:
+            kind = draw(st.sampled_from(["psd", "iso", "rank1", "product", "herm", "general", "proj", "werner"]))
+        if kind == "werner":
+            d = [d[0], d[0]]
         md = min(d)
         if sdp:
             k = draw(st.integers(1, md - 1))
-            kind = draw(st.sampled_from(["psd", "psd", "proj", "iso", "iso", "product"]))
-            effort = draw(st.sampled_from([1, 2]))
+            # the level-2 symmetric-extension program acts on d0*d1^2 dimensions: keep it to <= 32
+            effort = draw(st.sampled_from([1, 2])) if d[0] * d[1] ** 2 <= 32 else 1
         else:
-            kind = draw(st.sampled_from(["psd", "iso", "rank1", "product", "herm", "general", "proj"]))
             k = draw(st.integers(1, md + 1))
-            effort = 0 if kind in ("psd", "iso", "product", "proj") and k < md else draw(st.sampled_from([0, 1, 2]))
+            effort = 0 if kind in ("psd", "iso", "product", "proj", "werner") and k < md else draw(st.sampled_from([0, 1, 2]))
         n = d[0] * d[1]
         case = {"d": d, "k": k, "kind": kind, "effort": effort, "seed": draw(gen.SEED), "scale": draw(st.sampled_from([1.0, 1.0, 4.0, 0.1])), "npseed": draw(st.integers(0, 2**32 - 1)), "aseed": draw(gen.SEED)}
         if kind in ("psd", "proj"):
@@ -1037,6 +1066,10 @@ def _sk_case(sdp):
             case["st"] = draw(_state_spec(dims=[tuple(d)], q_choices=(1.0, 0.3)))
         if kind == "rank1":
             case["st2"] = draw(_state_spec(dims=[tuple(d)], q_choices=(1.0, 0.3)))
+        if kind == "werner":
+            case["a"] = draw(st.sampled_from([-1.0, -0.5, 0.3, 0.5, 0.9, 1.0]))
+            case["wa"] = draw(_ubasis())
+            case["wb"] = draw(_ubasis())
         if kind == "iso":
             case["b"] = draw(st.sampled_from([1.0, 0.2, 0.05]))
             case["c"] = draw(st.sampled_from([2.0, 0.5, -0.05, 10.0]))
@@ -1207,19 +1240,19 @@ def check_block_positive_doc(case):
 
 # ------------------------------------------------------------------------------------------------------
 SUBCHECKS = [
-    SubCheck("pure_closed_forms", check_pure_closed_forms, _pure_case, nt_pure, quick=4000, thorough=80000),
-    SubCheck("schmidt_rank", check_schmidt_rank, lambda: _schmidt_rank_case(None), nt_schmidt_rank, quick=2400, thorough=40000),
-    SubCheck("schmidt_rank_equal_dims", check_schmidt_rank, lambda: _schmidt_rank_case([(2, 2), (3, 3), (4, 4)]), nt_schmidt_rank_eq, quick=1200, thorough=20000),
-    SubCheck("schmidt_decomposition_vec", check_sd_vec, _sd_vec_case, nt_sd_vec, quick=3000, thorough=60000),
-    SubCheck("schmidt_decomposition_op", check_sd_op, _sd_op_case, nt_sd_op, quick=2000, thorough=40000),
-    SubCheck("mixed_local_unitary", check_mixed_lu, _mixed_case, nt_mixed, quick=2400, thorough=40000),
-    SubCheck("entropy_purity", check_entropy, _entropy_case, nt_entropy, quick=1600, thorough=30000),
-    SubCheck("is_product_vec", check_is_product_vec, _isprod_vec_case, nt_isprod_vec, quick=3000, thorough=60000),
-    SubCheck("is_product_op", check_is_product_op, _isprod_op_case, nt_isprod_op, quick=1600, thorough=30000),
-    SubCheck("scalar_dim_schmidt_decomposition", check_scalar_dim, lambda: _scalar_dim_case("schmidt_decomposition"), nt_scalar_dim, quick=600, thorough=8000),
-    SubCheck("scalar_dim_is_product", check_scalar_dim, lambda: _scalar_dim_case("is_product"), nt_scalar_dim, quick=600, thorough=8000),
-    SubCheck("sk_norm_no_sdp", check_sk_nosdp, lambda: _sk_case(False), nt_sk, quick=1600, thorough=30000, case_timeout=30),
-    SubCheck("sk_norm_sdp", check_sk_sdp, lambda: _sk_case(True), nt_sk, quick=96, thorough=1600, case_timeout=30),
-    SubCheck("block_positive", check_block_positive, _bp_case, nt_bp, quick=160, thorough=2400, case_timeout=30),
-    SubCheck("block_positive_doc", check_block_positive_doc, None, lambda c: "swap" if c["dd"] >= 3 else None, cases=_bp_doc_cases, exhaustive=True, case_timeout=60, shards=6),
+    SubCheck("pure_closed_forms", check_pure_closed_forms, _pure_case, nt_pure, quick=6000, thorough=100000, shards=8),
+    SubCheck("schmidt_rank", check_schmidt_rank, lambda: _schmidt_rank_case(None), nt_schmidt_rank, quick=3600, thorough=60000, shards=8),
+    SubCheck("schmidt_rank_equal_dims", check_schmidt_rank, lambda: _schmidt_rank_case([(2, 2), (3, 3), (4, 4)]), nt_schmidt_rank_eq, quick=1800, thorough=30000, shards=4),
+    SubCheck("schmidt_decomposition_vec", check_sd_vec, _sd_vec_case, nt_sd_vec, quick=4000, thorough=70000, shards=6),
+    SubCheck("schmidt_decomposition_op", check_sd_op, _sd_op_case, nt_sd_op, quick=3000, thorough=50000, shards=6),
+    SubCheck("mixed_local_unitary", check_mixed_lu, _mixed_case, nt_mixed, quick=4000, thorough=70000, shards=8),
+    SubCheck("entropy_purity", check_entropy, _entropy_case, nt_entropy, quick=2400, thorough=40000, shards=6),
+    SubCheck("is_product_vec", check_is_product_vec, _isprod_vec_case, nt_isprod_vec, quick=4800, thorough=80000, shards=8),
+    SubCheck("is_product_op", check_is_product_op, _isprod_op_case, nt_isprod_op, quick=2400, thorough=40000, shards=6),
+    SubCheck("scalar_dim_schmidt_decomposition", check_scalar_dim, lambda: _scalar_dim_case("schmidt_decomposition"), nt_scalar_dim, quick=600, thorough=10000, shards=2),
+    SubCheck("scalar_dim_is_product", check_scalar_dim, lambda: _scalar_dim_case("is_product"), nt_scalar_dim, quick=600, thorough=10000, shards=2),
+    SubCheck("sk_norm_no_sdp", check_sk_nosdp, lambda: _sk_case(False), nt_sk, quick=2400, thorough=40000, shards=8, case_timeout=30),
+    SubCheck("sk_norm_sdp", check_sk_sdp, lambda: _sk_case(True), nt_sk, quick=128, thorough=2400, case_timeout=30),
+    SubCheck("block_positive", check_block_positive, _bp_case, nt_bp, quick=192, thorough=3200, case_timeout=30),
+    SubCheck("block_positive_doc", check_block_positive_doc, None, lambda c: "swap" if c["dd"] >= 3 else None, cases=_bp_doc_cases, exhaustive=True, case_timeout=60, shards=3),
 ]
